@@ -91,6 +91,7 @@ fn yield_now() -> impl Future<Output = ()> {
 
 static HOOK: Once = Once::new();
 const INJECTED: &str = "dv-asan injected panic";
+static PANICS_ALLOWED: AtomicBool = AtomicBool::new(false);
 
 fn run_program(s: &mut Src) {
     HOOK.call_once(|| {
@@ -101,6 +102,11 @@ fn run_program(s: &mut Src) {
             if msg.contains(INJECTED) || msg.contains("panicked queue") || msg.contains("Cannot schedule") {
                 return;
             }
+            // a sync() whose closure panicked on the pool thread that ran it for the caller: the caller is released and
+            // panics in turn (its operation has no result)
+            if PANICS_ALLOWED.load(Ordering::SeqCst) && msg.contains("Finished background sync job without result") {
+                return;
+            }
             prev(info);
             // any other panic (a canary assertion, an unexpected library panic) is a finding
             eprintln!("DV-ASAN unexpected panic: {}", msg);
@@ -109,6 +115,7 @@ fn run_program(s: &mut Src) {
     });
     let pool = s.below(4);
     let allow_panic = s.u8() < 64;
+    PANICS_ALLOWED.store(allow_panic, Ordering::SeqCst);
     // scope rules (see DESIGN.md 5.2): with no pool thread, or when an operation may panic, a single caller thread is used:
     // a call that is in flight on an object while one of its operations panics may wait forever, and with pool 0 an
     // awaited future only makes progress if no other context uses the object
@@ -141,9 +148,14 @@ fn run_program(s: &mut Src) {
                 3 => Op::FutDesyncAwait,
                 4 => Op::FutDesyncDrop,
                 5 => Op::FutSyncAwait,
+                // (C08 promises that the queue is released after a cancellation only "given at least one pool thread")
+                6 if pool == 0 => Op::FutSyncAwait,
                 6 => Op::FutSyncPollDrop,
                 7 => Op::After,
                 8 => Op::Release,
+                // (a nested sync is a second context: it may be in flight on an object at the moment one of that object's
+                // operations panics, and may then wait forever - no property covers it - taking its own object with it)
+                9 if allow_panic => Op::Desync,
                 9 => Op::NestedSync,
                 10 => Op::Sleep,
                 11 => Op::YieldAwait,
@@ -345,6 +357,10 @@ fn run_program(s: &mut Src) {
             Err(_) => {
                 // a hang is not a memory-safety finding: leave it to libFuzzer's -timeout (reported as inconclusive)
                 eprintln!("DV-ASAN: watchdog: program did not finish (inconclusive)");
+                if std::env::var("DV_ASAN_GDB").is_ok() {
+                    // diagnosis aid: where is every thread?
+                    let _ = std::process::Command::new("gdb").args(["-p", &std::process::id().to_string(), "-batch", "-ex", "thread apply all bt 25"]).status();
+                }
                 loop {
                     std::thread::sleep(Duration::from_secs(3600));
                 }
